@@ -932,7 +932,7 @@ def calls_incl_closures(db, f, pred):
     for g in db.children(f.id):
         if g.kind != "closure":
             continue
-        inner = [c for c in g.calls() if pred(c)]
+        inner = [c for h in db.family(g.id) for c in h.calls() if pred(c)]      # (closures nested in the closure included)
         if inner:
             for u in closure_use_sites(db, f, g):
                 for c in inner:
